@@ -158,16 +158,26 @@ pub const MIN_EVENTS: u64 = 40;
 
 fn zscore(a: &Acc, t: &Target) -> Option<f64> {
     // validity guard : enough non-degenerate events and non-zero variance
+    let unit = a.min >= 0. && a.max <= 1.;
+    if unit && (0. ..=1.).contains(&t.theta) {
+        // values in [0,1]: P(X != 1) >= 1 - E[X] and P(X != 0) >= E[X] (Markov). If the target predicts >= 400 such
+        // trials and fewer than MIN_EVENTS were seen, the absence of events is itself a decisive deviation
+        // (probability < e^-200 under the target); it still has to be confirmed by a fresh stage.
+        let n = a.n as f64;
+        if a.n_not1 < MIN_EVENTS && n * (1. - t.theta) >= 400. {
+            return Some(1e9);
+        }
+        if a.n_not0 < MIN_EVENTS && n * t.theta >= 400. {
+            return Some(-1e9);
+        }
+    }
     let se = a.se();
     if !(se > 0.) {
         return None;
     }
-    if a.n_not0.min(a.n) < MIN_EVENTS || a.n_not1.min(a.n) < MIN_EVENTS {
-        // values live in [0,1] for the estimators monitored; when nearly all trials sit on 0 (or on 1) the normal
-        // approximation of the mean is not trusted
-        if a.min >= 0. && a.max <= 1. {
-            return None;
-        }
+    if unit && (a.n_not0 < MIN_EVENTS || a.n_not1 < MIN_EVENTS) {
+        // nearly all trials sit on 0 (or on 1): the normal approximation of the mean is not trusted
+        return None;
     }
     Some((a.mean - t.theta) / se)
 }
